@@ -899,12 +899,12 @@ func (q *seq) randomOp() {
 		case k < 35 && len(sn.batches) > 0:
 			b := sn.batches[q.rng.Intn(len(sn.batches))]
 			q.do(func() (string, string) { return q.opObsBatch(h, b.token, uint64(b.nonce)) })
-		case k < 40:
+		case k >= 35 && k < 39:
 			q.do(func() (string, string) { return q.opObsBatch(h, q.rng.Intn(nTokens), uint64(q.rng.Intn(int(q.lastBatch)+2))) })
 		case k < 60 && len(sn.calls) > 0:
 			c := sn.calls[q.rng.Intn(len(sn.calls))]
 			q.do(func() (string, string) { return q.opObsResult(h, uint64(c.nonce), q.rng.Intn(2) == 0) })
-		case k < 63:
+		case k >= 60 && k < 62:
 			q.do(func() (string, string) { return q.opObsResult(h, uint64(q.rng.Intn(int(q.lastCall)+2)), q.rng.Intn(2) == 0) })
 		default:
 			q.do(func() (string, string) { return q.opObsOther(h) })
@@ -939,6 +939,9 @@ func (q *seq) randomOp() {
 }
 
 func (q *seq) genReqBatch(sn snap) {
+	if len(sn.batches) > 0 && q.rng.Intn(3) > 0 {
+		q.do(func() (string, string) { return q.opBlock(1) })
+	}
 	tk := q.rng.Intn(nTokens)
 	var fees []int64
 	var total int64
